@@ -10,7 +10,9 @@ abse() * factor(units()), factors from the published tables, mc/refmodels/quanti
   sum            (a +- b).abse == a.abse + b.abse   (b's uncertainty expressed in a's unit; exact operand adds 0)
   exact factor   (q*c, c*q).abse == q.abse*|c| ; (q/c).abse == q.abse/|c|   (c a plain number or an exact quantity)
   first order    both uncertain and positive: (a*b).abse >= |a|db+|b|da ; (a/b).abse >= (|a|db+|b|da)/b^2
-  conversion     q.to(v): abse scaled by factor(u)/factor(v); rele() unchanged
+  conversion     q.to(v): abse scaled by factor(u)/factor(v); rele() unchanged.  v is given as text, as a BaseUnits
+                 object, as a list of base-dimension exponents, or as an exact Quantity k*unit (k in {1, 2, 0.25});
+                 for k != 1 only "rele() unchanged" is demanded (the statement does not say what the value means)
   exact          all operands exact -> result abse() is None (an all-zero uncertainty is accepted as exact too)
 
 Not demanded (statement silent): the size of the uncertainty of a power, of a negation, and of c/q (exact divided
@@ -69,6 +71,8 @@ _ENE = [U_J, U_ERG, U_KGM2S2, (("", "eV", 1),), (("k", "cal", 1),)]
 CONVERSIONS_T = CONVERSIONS + [(a, b) for grp in (_LEN, _ENE) for a in grp for b in grp
                                if a != b and (a, b) not in CONVERSIONS]
 
+TARGET_SCALES = [1, 2, 0.25]     # to(Quantity(k, unit)): an exact "unit with a scale" as conversion target
+
 _GUARD = None
 
 
@@ -120,6 +124,23 @@ def _mk_factor(case):
         return c
     u = _uj(cu)
     return Quantity(c, R.render(u)) if u else Quantity(c)
+
+
+def _target(case):
+    """the argument of to(): unit text, BaseUnits object, list of base-dimension exponents, or an exact Quantity
+    k*unit (a "unit with a scale", e.g. multiples of 2 cm)"""
+    from scinumtools.units import Quantity, BaseUnits
+    tf = case.get("tf", "str")
+    if tf == "list":
+        return [int(x) for x in R.dims(_uj(case["a"]["u"]))]
+    text = R.render(_uj(case["v"]))
+    if tf == "str":
+        return text
+    if tf == "BaseUnits":
+        return BaseUnits(text)
+    if tf == "Quantity":
+        return Quantity(case["tk"], text)
+    raise HarnessError("unknown conversion target form %r" % (tf,))
 
 
 def _abse(q):
@@ -199,8 +220,13 @@ def _tags(case):
         p = case["p"]
         pv = p[0] / p[1] if isinstance(p, list) else p
         t.append("exp-negative" if pv < 0 else "exp-positive")
-    if case["k"] == "to" and case["a"]["u"] != case["v"]:
-        t.append("unit-conversion")
+    if case["k"] == "to":
+        tf = case.get("tf", "str")
+        if tf == "list" or case["a"]["u"] != case["v"]:
+            t.append("unit-conversion")
+        t.append("target:" + tf)
+        if tf == "Quantity":
+            t.append("target-scale=1" if case["tk"] == 1 else "target-scale!=1")
     return t
 
 
@@ -240,7 +266,7 @@ def _run(case):
     elif k == "to":
         if obs["ea"] is not None:
             obs["ra"] = np.asarray(a.rele(), dtype=float)
-        res = a.to(R.render(_uj(case["v"])))
+        res = a.to(_target(case))
         if res.abse() is not None:
             obs["rr"] = np.asarray(res.rele(), dtype=float)
     else:
@@ -356,7 +382,10 @@ def check_case(case):
             return None, "ok:exact"
         if er is None:
             return bad(dict(base_abse=_l(dA)), obs, "uncertainty-lost", "bad:lost")
-        if not _eq(dR, dA):
+        scaled_target = case.get("tf") == "Quantity" and case["tk"] != 1
+        # target k*unit with k != 1: what the value means there is not in the statement; "relative uncertainty is
+        # unchanged" decides (below), the absolute size is compared only for pure unit targets
+        if not scaled_target and not _eq(dR, dA):
             beh = "wrong-scale"
             if fr != fa and _eq(er, ea):
                 beh = "uncertainty-not-converted"
@@ -365,7 +394,7 @@ def check_case(case):
             obs["rele_before"] = _l(o.get("ra"))
             obs["rele_after"] = _l(o.get("rr"))
             return bad("rele() unchanged", obs, "rele-changed", "bad:rele-changed")
-        return None, "ok:conversion"
+        return None, "ok:conversion" + (":" + case["tf"] if "tf" in case else "")
     raise HarnessError("unknown case kind %r" % (k,))
 
 
@@ -405,6 +434,12 @@ def _cases(tier):
     for u, v in conversions:
         for a in _operands(u):
             yield dict(k="to", a=a, v=_ju(v))
+            yield dict(k="to", a=a, v=_ju(v), tf="BaseUnits")
+            for tk in TARGET_SCALES:
+                yield dict(k="to", a=a, v=_ju(v), tf="Quantity", tk=tk)
+    for u in sorted(set(u for u, _ in conversions), key=R.render):
+        for a in _operands(u):
+            yield dict(k="to", a=a, v=_ju(u), tf="list")       # target = list of base-dimension exponents
 
 
 def plan(tier, seed):
@@ -458,6 +493,8 @@ def finish(total, tier, seed):
         "exact factors": tot("num:mul:ok:exact-factor") + tot("num:mul:bad") + tot("num:div:bad"),
         "exact results": sum(v for key, v in h.items() if key.endswith(":ok:exact")),
         "conversions": tot("to:ok:conversion") + tot("to:bad"),
+        "conversions to a BaseUnits object": h.get("to:ok:conversion:BaseUnits", 0) + tot("to:bad"),
+        "conversions to a Quantity object": h.get("to:ok:conversion:Quantity", 0) + tot("to:bad"),
         "powers": tot("pow:"),
         "negations": tot("neg:"),
     }
@@ -482,7 +519,8 @@ MANIFEST = dict(
     text="Bounded exhaustive check of uncertainty propagation on the real Quantity: operands {3,-3,0.5,-0.25, "
          "[2,-4],[0.5,3]} x {exact, abse 0.1, rele 10%} in m/cm/km/s/unit-less; every ordered pair under + - * / "
          "(5 unit pairs each, incl. mixed prefixes and folding), exact factors {2,-3,0.5,-0.25} as plain numbers and "
-         "exact quantities on both sides of * and /, negation, 8 exponents, to() through 7 linear unit pairs "
+         "exact quantities on both sides of * and /, negation, 8 exponents, to() through 7 linear unit pairs with the target as text, BaseUnits, "
+         "base-dimension list or exact Quantity k*unit (k=1,2,0.25) "
          "(thorough: 10 values x 5 uncertainty kinds, 6 factors, 65 unit pairs; 65 500 cases). "
          "Checked: abse never negative; sums add uncertainties; exact factor scales by |c|; first-order lower bound "
          "for positive uncertain products/quotients; conversion scales abse with the value and keeps rele; exact "
